@@ -396,6 +396,12 @@ def obligations(tier):
                                   bounds='methotrexate with the residues lining it and a chloride (cut from 4DFR)%s shifted by t = k/1000 along %s, t in [0,2.509]' % (' with Nmin/Nmax lowered to 6/30' if params else '', axn),
                                   claim_doc='bonds, groups, num_volume, buried, energy_volume identical; hydrogens on amino-acid atoms at the shifted positions (pKa values and ligand hydrogens are not claimed: hetero groups are excluded by the statement)',
                                   max_paths=5000, wall_s=170 if tier == 'quick' else 1200, split_input=('shift_thousandths', 8)))
+    # ligands alone under translation (ring perception, SYBYL typing, ligand groups).  Rotations are not claimed for ligand groups:
+    # the statement lists protein and ion groups, and the aromaticity verdict of a slightly puckered ring (copy B of
+    # methotrexate in 4DFR) does depend on the orientation on the unchanged tree (DESIGN.md, observations)
+    for name in (['lig_MTX_B', 'lig_KNI'] if tier == 'quick' else ['lig_MTX_B', 'lig_KNI', 'lig_MTX']):
+        obs.append(Obligation('O1-translation[%s,x,built-hydrogens]' % name, mk_translate(name, (0,), 0.0, 2.509, False), code=code_pipe + ['propka/ligand.py:assign_sybyl_type', 'propka/ligand.py:is_aromatic_ring', 'propka/ligand.py:identify_ring'],
+                              bounds='ligand %s shifted by t = k/1000 along x, t in [0,2.509]' % name, claim_doc='bonds, groups (ligand group types), desolvation identical', max_paths=5000, wall_s=170, split_input=('shift_thousandths', 4)))
     # burial switched on (Nmin/Nmax 6/30): Coulomb, iterative and coupling paths active
     for name in (['pair_ASP_ARG'] if tier == 'quick' else ['pair_ASP_ARG', 'pair_GLU_ARG_TYR', 'pair_ASP_ASP', 'pair_LYS_ASP', 'pep8']):
         for ax, axn in axes[:3]:
